@@ -77,7 +77,7 @@ def correspondence(ck, binpath, n, limit):
     if rc != 0:
         ck.tie_broken("harness c02 corr failed", err[-2000:])
         return
-    cases = [json.loads(l) for l in out.splitlines() if l.strip()]
+    cases = [json.loads(l) for l in jlines(out) if l.strip()]
     lv = {"5.1": "Lua51", "5.2": "Lua52", "5.3": "Lua53", "5.4": "Lua54"}
     terms = []
     for c in cases:
@@ -112,7 +112,7 @@ def search(ck, binpath, n):
     if rc != 0:
         ck.tie_broken("harness c02 search failed", err[-2000:])
         return
-    for l in out.splitlines():
+    for l in jlines(out):
         if not l.strip():
             continue
         v = json.loads(l)
@@ -130,7 +130,7 @@ def replay(ck, binpath, path):
     for v in data.get("violations", []):
         rc, out, err = ck.run_bin(binpath, ["one", "--case-json", json.dumps(v["case"])], timeout=900)
         try:
-            r = json.loads(out.splitlines()[-1])
+            r = json.loads(jlines(out)[-1])
         except Exception:
             r = {"end": "harness-error"}
         if r.get("end") != "ok":
